@@ -207,6 +207,19 @@ class Program:
         self._callers = None
 
     # ---- call resolution ----
+    def drop_bodies(self, adt):
+        """bodies of `impl Drop for <adt>` (the ADT may carry lifetime / type parameters in the impl header)."""
+        idx = self.__dict__.get("_drop_idx")
+        if idx is None:
+            idx = {}
+            for bid in self.bodies:
+                m = re.match(r"^<(.+) as core::ops::drop::Drop>::drop$", bid)
+                if m:
+                    base = re.sub(r"<.*$", "", m.group(1))
+                    idx.setdefault(base, []).append(bid)
+            self._drop_idx = idx
+        return idx.get(re.sub(r"<.*$", "", adt), [])
+
     def resolve(self, callee):
         """Return (kind, targets):
         kind 'ws'       -> targets = list of body ids in the analysed crates (exact or CHA)
@@ -366,6 +379,7 @@ def inline_helpers(P, fn, max_depth=3):
          "locals": list(F.locals), "vars": list(F.vars), "blocks": [dict(b, stmts=list(b["stmts"])) for b in F.blocks],
          "hkey": F.id + "#inlined"}
     inlined = []
+    result_locals = []
     budget = 12
 
     def eligible(g):
@@ -400,6 +414,7 @@ def inline_helpers(P, fn, max_depth=3):
                 inlined.append(G.id)
                 loff = len(j["locals"])
                 boff = len(j["blocks"])
+                result_locals.append(loff)
                 j["locals"] = j["locals"] + list(G.locals)
                 for name, place in G.vars:
                     j["vars"].append([name, _shift_place(place, loff)])
@@ -431,5 +446,115 @@ def inline_helpers(P, fn, max_depth=3):
         i += 1
     if not inlined:
         return F, []
+    tracked = {l for l in result_locals if j["locals"][l]["ty"].startswith("core::result::Result<")}
+    if tracked:
+        nb = _thread_results(j, tracked)
+        if nb is not None:
+            j["blocks"] = nb
     B = Body(j)
     return B, inlined
+
+
+def _thread_results(j, tracked):
+    """Path splitting for inlined helpers that return a Result: the callee's Ok and Err paths meet at its return and
+    the caller's `?` separates them again; a join in between would make every path analysis believe that the
+    effects of the Ok path can be followed by the Err continuation (and vice versa).  Product of the CFG with the
+    known variant of the callee's return value (propagated through moves, `Try::branch` and `discriminant`), with
+    the infeasible edge of the deciding switch removed.  Returns the new block list, or None when the product
+    would grow beyond a small factor."""
+    blocks = j["blocks"]
+
+    def step(b, st):
+        st = dict(st)
+        blk = blocks[b]
+        for s_ in blk["stmts"]:
+            if s_[0] != "assign":
+                continue
+            d, rv = s_[1], s_[2]
+            if d["p"]:
+                continue
+            l, k, new = d["l"], rv["k"], None
+            if k == "agg" and rv.get("variant") in ("Ok", "Err") and l in tracked:
+                new = rv["variant"]
+            elif k == "use" and rv.get("ops"):
+                src = op_place(rv["ops"][0])
+                if src and not src["p"] and src["l"] in st:
+                    new = st[src["l"]]
+                    if "m" in rv["ops"][0]:
+                        st.pop(src["l"])
+            elif k == "discr" and not rv["place"]["p"] and rv["place"]["l"] in st and not isinstance(st[rv["place"]["l"]], tuple):
+                new = ("d", 0 if st[rv["place"]["l"]] in ("Ok", "Continue") else 1)
+            if new is not None:
+                st[l] = new
+            else:
+                st.pop(l, None)
+        t = blk["term"]
+        k = t["k"]
+        if k == "call":
+            dl = t["dest"]["l"] if not t["dest"]["p"] else None
+            if not t.get("inlined"):
+                path = "%s|%s" % (t["callee"].get("path"), t["callee"].get("rpath"))
+                a0 = op_place(t["args"][0]) if t["args"] else None
+                new = None
+                if "from_residual" in path and dl in tracked:
+                    new = "Err"
+                elif "Try::branch" in path or "Try>::branch" in path:
+                    if a0 and not a0["p"] and a0["l"] in st and st[a0["l"]] in ("Ok", "Err"):
+                        new = "Continue" if st[a0["l"]] == "Ok" else "Break"
+                for a in t["args"]:
+                    if "m" in a and not a["m"]["p"]:
+                        st.pop(a["m"]["l"], None)
+                if dl is not None:
+                    if new is not None:
+                        st[dl] = new
+                    else:
+                        st.pop(dl, None)
+            out = [("target", t.get("target"), st)]
+            if isinstance(t.get("unwind"), int):
+                out.append(("unwind", t["unwind"], {}))
+            return out
+        if k == "switch":
+            l = op_local(t["op"])
+            if l in st and isinstance(st[l], tuple):
+                val = st[l][1]
+                tgt = next((bb for v, bb in t["targets"] if str(v) == str(val)), t["otherwise"])
+                return [("only", tgt, {})]
+            return [("targets", [(v, bb) for v, bb in t["targets"]], st), ("otherwise", t["otherwise"], st)]
+        out = []
+        for key in ("target", "unwind", "otherwise"):
+            if isinstance(t.get(key), int):
+                out.append((key, t[key], st if key != "unwind" else {}))
+        return out
+
+    ids = {}
+    order = []
+
+    def nid(b, st):
+        key = (b, frozenset(st.items()))
+        if key not in ids:
+            ids[key] = len(order)
+            order.append(key)
+        return ids[key]
+
+    nid(0, {})
+    newb = []
+    i = 0
+    cap = 3 * len(blocks) + 200
+    while i < len(order):
+        if len(order) > cap:
+            return None
+        b, stf = order[i]
+        blk = blocks[b]
+        nt = dict(blk["term"])
+        for kind, tgt, st2 in step(b, dict(stf)):
+            if tgt is None:
+                continue
+            if kind == "only":
+                nt = {"k": "goto", "target": nid(tgt, st2)}
+            elif kind == "targets":
+                nt["targets"] = [[v, nid(bb, st2)] for v, bb in tgt]
+            else:
+                nt[kind] = nid(tgt, st2)
+        newb.append({"stmts": blk["stmts"], "cleanup": blk.get("cleanup", False), "term": nt})
+        i += 1
+    return newb
